@@ -57,6 +57,10 @@ type Config struct {
 	PruneHeight int32
 	TkLen       int32 // tkCloseCacheLen (0 = store default)
 	Cache       int   // node cache entries of the db handle; 0 = the store's default
+	// RealMemInit: let the constructor allocate the mem-tree map itself (500000-entry
+	// capacity hint, 50-100 ms per process start). Otherwise the harness pre-creates
+	// the same caches without the hint (hook VerifPresetMemTree) before calling New.
+	RealMemInit bool
 }
 
 // Config bit positions for ConfigFromBits / Bits.
@@ -209,6 +213,9 @@ func (n *Node) open() {
 	if n.Cfg.Cache > 0 {
 		cfg.Driver = smallCacheBackend
 		cfg.DbCache = int32(n.Cfg.Cache)
+	}
+	if n.Cfg.MemTree && !n.Cfg.RealMemInit {
+		mavldb.VerifPresetMemTree(n.Cfg.TkLen)
 	}
 	m := mavlstore.New(cfg, n.Cfg.SubJSON(), nil)
 	st, ok := m.(*mavlstore.Store)
@@ -1051,6 +1058,7 @@ func ConfigFromKnobs(sc *simrt.Scenario) Config {
 	c.Cache = int(sc.Knob("cache", 0))
 	c.TkLen = int32(sc.Knob("tklen", 0))
 	c.PruneHeight = int32(sc.Knob("pruneheight", 0))
+	c.RealMemInit = sc.Knob("realmeminit", 0) == 1
 	return c
 }
 
@@ -1065,6 +1073,9 @@ func DrawConfigKnobs(r *simrt.RNG, sc *simrt.Scenario, withMVCC bool) {
 	sc.Knobs["cache"] = int64([]int{0, 0, 1, 2, 8, 64}[r.Intn(6)])
 	if bits&BitMemTree != 0 {
 		sc.Knobs["tklen"] = int64([]int{0, 1, 4}[r.Intn(3)])
+		if r.Chance(1, 12) {
+			sc.Knobs["realmeminit"] = 1 // the constructor's own (slow) cache allocation
+		}
 	}
 	// A prune interval that can never fire (heights stay far below it): the code
 	// paths that depend on PruneHeight != 0 run, the pruner itself does not.
